@@ -29,6 +29,8 @@ pub enum Field {
     Kid(u8),
     PayU32,
     PaySym,
+    /// another payload type; the list gives admissible spellings (first = simplest)
+    PayOther(&'static [&'static str]),
 }
 
 #[derive(Clone, Debug)]
@@ -539,6 +541,7 @@ pub fn gen_tm(sig: &LangSig, cfg: &GenCfg, src: &mut Src, depth: usize) -> Tm {
             Field::Slot => args.push(Arg::S(src.pick(cfg.alphabet as usize) as Name)),
             Field::PayU32 => args.push(Arg::P(format!("{}", src.pick(cfg.payload_u32_max as usize + 1)))),
             Field::PaySym => args.push(Arg::P(cfg.symbols[src.pick(cfg.symbols.len())].to_string())),
+            Field::PayOther(v) => args.push(Arg::P(v[src.pick(v.len())].to_string())),
             Field::Kid(nb) => {
                 let mut bs = Vec::new();
                 for _ in 0..*nb {
@@ -768,7 +771,7 @@ fn parse_tm_toks(sig: &LangSig, toks: &[String], pos: &mut usize) -> Result<Tm, 
                     args.push(Arg::S(name_of_alpha(s).ok_or(format!("bad slot {s}"))?));
                     *pos += 1;
                 }
-                Field::PayU32 | Field::PaySym => {
+                Field::PayU32 | Field::PaySym | Field::PayOther(_) => {
                     args.push(Arg::P(toks.get(*pos).ok_or("unexpected end")?.clone()));
                     *pos += 1;
                 }
